@@ -231,3 +231,58 @@ Proof.
   apply Forall_forall. intros p Hin. destruct (split_byte_sub _ _ _ Hin) as (a & b & E). rewrite E in P.
   now apply plain_ws_sub in P.
 Qed.
+
+(* ---------- several Cookie headers: their values joined by "; " ---------- *)
+Definition join2 (a v : bytes) : bytes := a ++ bs "; " ++ v.
+Definition joinl (vs : list bytes) : option bytes :=
+  match vs with [] => None | v :: r => Some (fold_left join2 r v) end.
+
+Lemma split_byte_nonempty c l : split_byte c l <> [].
+Proof. destruct l as [|b r]; cbn [split_byte]; [discriminate|]. destruct (beqb b c); [discriminate|]. destruct (split_byte c r); discriminate. Qed.
+
+Lemma split_byte_app_any c : forall x y, split_byte c (x ++ c :: y) = split_byte c x ++ split_byte c y.
+Proof.
+  induction x as [|b x IH]; intros y.
+  - cbn. now rewrite beqb_refl.
+  - cbn [app split_byte]. destruct (beqb b c); rewrite IH; [reflexivity|].
+    pose proof (split_byte_nonempty c x) as N. destruct (split_byte c x); [congruence | reflexivity].
+Qed.
+
+Lemma split_join2 x y : split_byte ";"%byte (join2 x y) = split_byte ";"%byte x ++ split_byte ";"%byte (sp :: y).
+Proof. unfold join2. change (bs "; " ++ y) with (";"%byte :: sp :: y). apply split_byte_app_any. Qed.
+
+Lemma split_fold_join : forall r a,
+  split_byte ";"%byte (fold_left join2 r a) = split_byte ";"%byte a ++ flat_map (fun v => split_byte ";"%byte (sp :: v)) r.
+Proof.
+  induction r as [|v r IH]; intros a; cbn [fold_left flat_map]; [now rewrite app_nil_r|].
+  rewrite IH, split_join2, <- app_assoc. reflexivity.
+Qed.
+
+Lemma split_pieces_plain v : plain_ws v = true -> Forall (fun p => plain_ws p = true) (split_byte ";"%byte v).
+Proof.
+  intros P. apply Forall_forall. intros p Hin. destruct (split_byte_sub _ _ _ Hin) as (a & b & E). rewrite E in P.
+  now apply plain_ws_sub in P.
+Qed.
+Lemma plain_sp v : plain_ws v = true -> plain_ws (sp :: v) = true.
+Proof. intros P. rewrite plain_ws_cons, P. rewrite ws_len_ascii by reflexivity. reflexivity. Qed.
+
+Lemma flat_piece_sp v : flat_map piece_spec (split_byte ";"%byte (sp :: v)) = cookie_pairs v.
+Proof.
+  unfold cookie_pairs. change (split_byte ";"%byte (sp :: v)) with (cons_head sp (split_byte ";"%byte v)).
+  pose proof (split_byte_nonempty ";"%byte v) as N. destruct (split_byte ";"%byte v) as [|p0 rest]; [congruence|].
+  cbn [cons_head flat_map]. f_equal.
+Qed.
+
+Theorem cookie_join_split vs : Forall (fun v => plain_ws v = true) vs ->
+  match joinl vs with Some c => parse_cookies c | None => [] end = number_cookies (flat_map cookie_pairs vs) O.
+Proof.
+  intros H. destruct vs as [|v r]; [reflexivity|]. inversion H as [|? ? Hv Hr]; subst.
+  cbn [joinl flat_map]. unfold parse_cookies. rewrite split_fold_join.
+  rewrite cookie_pieces_spec.
+  - rewrite flat_map_app. f_equal. f_equal.
+    clear H Hv. induction r as [|w r IH]; [reflexivity|]. inversion Hr; subst.
+    cbn [flat_map]. rewrite flat_map_app, flat_piece_sp, IH by assumption. reflexivity.
+  - apply Forall_app. split; [now apply split_pieces_plain|].
+    clear H Hv. induction r as [|w r IH]; [constructor|]. inversion Hr; subst. cbn [flat_map].
+    apply Forall_app. split; [apply split_pieces_plain; now apply plain_sp | now apply IH].
+Qed.
